@@ -357,6 +357,8 @@ class SpecSM:
             if c is not None:
                 self.bump("deactivated")
             c = None
+        elif not self.requested and c is not None and c != sp.default:
+            self.bump("must_finish-continues")
 
         if c is None and sp.default is not None:
             if self.cur != sp.default:
@@ -927,7 +929,7 @@ def decode_shape(code, profile):
     case = {"states": states}
     present, which, mode, lvl_up, dur_pool, sig_c, nxt_c = ocode
     cand = [sd for sd in states if sd["kind"] != "default" and sd["lvl"] < levels - 1]
-    if present == 5 and cand:
+    if present >= 4 and cand:
         o = dict(cand[which % len(cand)])
         o["lvl"] = min(levels - 1, o["lvl"] + 1 + lvl_up % 2)
         o["script"] = []
@@ -955,7 +957,7 @@ def decode_sm_case(code, profile):
     case = decode_shape(shape_c, profile)
     names = [sd["n"] for sd in case["states"] if sd["kind"] != "default"]
     timed = [sd["n"] for sd in case["states"] if sd["kind"] == "timed"]
-    toggle_cut = {"C02": 15, "C04": 12}.get(profile, 14)  # toggle engagement when code >= cut
+    toggle_cut = {"C02": 15, "C04": 10}.get(profile, 12)  # toggle engagement when code >= cut
     hist = []
     for tog, eng_v, tgt, extra, pos, dpool, dfree, via, adv in iters:
         if tog >= toggle_cut:
@@ -993,7 +995,7 @@ def decode_sm_case(code, profile):
 
 
 def sm_cases(profile):
-    raw = st.tuples(_SHAPE_CODE, st.lists(_ITER_CODE, min_size=3, max_size=45), st.booleans(), _I(0, 5), _I(0, 2))
+    raw = st.tuples(_SHAPE_CODE, st.lists(_ITER_CODE, min_size=4, max_size=45), st.booleans(), _I(0, 5), _I(0, 2))
     return raw.map(lambda c: decode_sm_case(c, profile))
 
 
